@@ -12,7 +12,7 @@ import tempfile
 import time
 from fractions import Fraction
 
-VERIF = "/verif"
+VERIF = os.path.dirname(os.path.dirname(os.path.abspath(__file__)))
 REPO = "/repo"
 COQ = os.path.join(VERIF, "coq")
 EVIDENCE = os.path.join(VERIF, "evidence")
